@@ -235,6 +235,7 @@ def run_case(case):
     out["untyped"] = len(untyped_assigned)
 
     symvals = {k: Fraction(v) for k, v in case.get("symvals", {}).items()}
+    uninit = set(case.get("uninitialised") or [])
     rngseam.install(case.get("seed", 0))
     rng = _random.Random(case.get("seed", 0))
     iters = case["iterations"]
@@ -300,8 +301,8 @@ def run_case(case):
                 observed.add((name, round(val, 9)))
                 if not _member(val, ftypes[name]):
                     run_viol.append(st)
-                    shape = (not st[4], bool(st[6]), str(a.default) != name)
-                    if shape == (True, True, True):
+                    is_generic = any(abs(float(sv) - val) <= 1e-9 * max(1.0, abs(val)) for k, sv in symvals.items() if k in uninit)
+                    if st[6] and is_generic:
                         tainted.add(name)
                     elif st[6] and st[4]:
                         try:
@@ -320,7 +321,7 @@ def run_case(case):
                 a = st[3]
                 shape = (not st[4], bool(st[6]), str(a.default) != str(a.variable))
                 if (st[0], st[1], st[2]) in downstream:
-                    shape = (True, True, True)
+                    shape = ("downstream",)
                 shape_counts[shape] = shape_counts.get(shape, 0) + 1
                 if shape_counts[shape] > 2:
                     continue
@@ -331,8 +332,9 @@ def run_case(case):
                     "stmt": st[2], "assignment": str(a), "via_default": not st[4],
                     "default_is_other_var": str(a.default) != str(a.variable),
                     "source_guard_false": bool(st[6]),
-                    "downstream_of_f3": key in downstream,
+                    "downstream_of_f13": key in downstream,
                     "no_initial_value": str(a.variable) in symvals,
+                    "is_generic_initial_value": any(abs(float(sv) - st[5]) <= 1e-9 * max(1.0, abs(st[5])) for k, sv in symvals.items() if k in uninit),
                     "run": ri,
                 }
                 if c is None:
